@@ -111,25 +111,26 @@ def stepUpdate (db : Db) (columns : Py.Str) (values : List (List Val)) (tn : Py.
       | none => .outside                            -- a value that the attribute cannot hold "equal in value"
   | _, _, _ => .reject                              -- unknown attribute, condition name or table
 
-/-- positions named by `update_column`'s index (`none` when something is not a position of the table) -/
-def indexPositions (n : Nat) (index : List Val) : Option (List Nat) :=
-  index.mapM (fun v => match v with
-    | .int i => if 0 ≤ i ∧ i < n then some i.toNat else none
-    | _ => none)
+/-- `update_column` pairs values with rows: the i-th value with row i, or with row `index[i]`, for as many
+    pairs as both lists yield; a pair whose index is no position of the table addresses nothing -/
+def columnPairs (n : Nat) (values : List Val) (index : Option (List Val)) : Option (List (Nat × Val)) :=
+  match index with
+  | none => some ((values.zipIdx.filter (fun vi => vi.2 < n)).map (fun vi => (vi.2, vi.1)))
+  | some idx =>
+    ((values.zip idx).mapM (fun (vi : Val × Val) => match vi.2 with
+      | Val.int i => some (if 0 ≤ i ∧ i < n then some (i.toNat, vi.1) else none)
+      | _ => (none : Option (Option (Nat × Val))))).map (fun l => List.filterMap id l)
 
 def stepUpdateColumn (db : Db) (colname : Py.Str) (values : List Val) (index : Option (List Val)) (tn : Py.Str) : Outcome :=
   match resolve db.extraNames colname, db.table? tn with
   | some c, some T =>
     if c = .rowID then .outside else
-    let sel? : Option (List Nat) := match index with
-      | none => some (List.range T.length)
-      | some idx => indexPositions T.length idx
-    match sel? with
-    | none => .outside                               -- indices that are not row positions
-    | some sel =>
-      if sel.length ≠ values.length then .reject      -- the values do not fit the index / the table
-      else if !sel.Nodup then .outside
-      else match assign db.extra T sel [c] (values.map (fun v => [v])) with
+    match columnPairs T.length values index with
+    | none => .outside                               -- indices that are not integers
+    | some pairs =>
+      let sel := pairs.map (·.1)
+      if !sel.Nodup then .outside                    -- a row addressed twice
+      else match assign db.extra T sel [c] (pairs.map (fun pv => [pv.2])) with
         | some T' => .ok (db.setTable tn T')
         | none => .outside
   | _, _ => .reject
